@@ -227,6 +227,23 @@ def kept_pair_programs():
     return [(s, o, "0") for s, o in ps]
 
 
+def continue_scope_programs():
+    """`continue` ends the iteration like its normal end does: the next iteration starts from scratch (its own scope), and the
+    loop goes on to exactly the iterations that remain"""
+    loops = {"while": "i := 0\nwhile i < 3 {\n    i += 1\n@B}\nprint(\"done\")\n", "for": "for [k, i] in [1, 2, 3] {\n@B}\nprint(\"done\")\n",
+             "for-object": "for [k, i] in {\"a\": 1, \"b\": 2, \"c\": 3} {\n@B}\nprint(\"done\")\n"}
+    bodies = [
+        ("    half := i * 10\n    if i < 3 {\n        continue\n    }\n    print(half)\n", "30\ndone\n"),
+        ("    half := i * 10\n    print(half)\n    continue\n", "10\n20\n30\ndone\n"),
+        ("    {\n        tmp := i\n        if i == 1 {\n            continue\n        }\n    }\n    tmp := i * 2\n    print(tmp)\n", "4\n6\ndone\n"),
+        ("    fn h() {\n        return i\n    }\n    if i == 2 {\n        continue\n    }\n    print(h())\n", "1\n3\ndone\n"),
+        ("    acc := []\n    acc += [i]\n    if i == 1 {\n        continue\n    }\n    print(acc)\n", "[\n    2,\n]\n[\n    3,\n]\ndone\n"),
+        ("    j := 0\n    while j < 2 {\n        j += 1\n        inner := j\n        if j == 1 {\n            continue\n        }\n        print(i * 10 + inner)\n    }\n",
+         "12\n22\n32\ndone\n"),
+    ]
+    return [(tmpl.replace("@B", b), o, "0") for tmpl in loops.values() for b, o in bodies]
+
+
 def mutation_programs():
     """loop bodies that mutate the iterated container: `for` walks a snapshot taken at entry"""
     ps = []
@@ -272,6 +289,7 @@ def run(ctx, model_ok):
     extra += [(("mut", i), s, o, st) for i, (s, o, st) in enumerate(mutation_programs())]
     extra += [(("empty", i), s, o, st) for i, (s, o, st) in enumerate(empty_branch_programs())]
     extra += [(("kept", i), s, o, st) for i, (s, o, st) in enumerate(kept_pair_programs())]
+    extra += [(("continue-scope", i), s, o, st) for i, (s, o, st) in enumerate(continue_scope_programs())]
     extra += [(("top", i), s, o, st) for i, (s, o, st) in enumerate(toplevel_jump_programs())]
     ctx.cov["exhaustive"] = True
     for label, cs in (("jump_nest", cases), ("fixed", extra)):
